@@ -87,11 +87,19 @@ Inductive err :=
 | EExpr (e : str)             (* expression error; carries the expression text *)
 | EFromMissing (k : str)      (* var_options from: names a non-existing variable *)
 | EFromBoth (k : str)         (* variable has both values and from: *)
+| ENeedEv (e : str)            (* harness protocol only: evalexpr result for e not supplied yet *)
 | EParse                      (* malformed request / assignment *)
 | EOther (tag : str).
 
 Inductive res (A : Type) := Ok (a : A) | Err (e : err) | Panic (site : N) | Fuel.
 Arguments Ok {A}. Arguments Err {A}. Arguments Panic {A}. Arguments Fuel {A}.
+
+(* evalexpr::eval as seen by the model: a value, an error, or (harness protocol) not supplied *)
+Inductive evr := EvOk (v : str) | EvErr | EvNeed.
+
+(* Result::unwrap()/expect(): an Err becomes a panic at [site]; the protocol marker passes through *)
+Definition unwrap_res {A} (site : N) (x : res A) : res A :=
+  match x with Ok v => Ok v | Err (ENeedEv e) => Err (ENeedEv e) | Err _ => Panic site | Panic n => Panic n | Fuel => Fuel end.
 
 Definition rbind {A B} (x : res A) (f : A -> res B) : res B :=
   match x with Ok a => f a | Err e => Err e | Panic n => Panic n | Fuel => Fuel end.
